@@ -321,7 +321,7 @@ static std::vector<std::array<uint8_t, 4>> alphabet() {
   std::vector<std::array<uint8_t, 4>> A;
   auto op = [&](int o, int a, int b, int c) { A.push_back({(uint8_t)o, (uint8_t)a, (uint8_t)b, (uint8_t)c}); };
   op(H_NEW, 0, 7, 0);      // uint8
-  op(H_NEW, 6, 2, 0);      // definite bytestring
+  op(H_NEW, 6, 2, 1);      // definite bytestring, payload attached with set_handle
   op(H_NEW, 8, 0, 0);      // indefinite bytestring
   op(H_NEW, 10, 1, 0);     // definite array, capacity 1
   op(H_NEW, 12, 0, 0);     // indefinite array
